@@ -250,8 +250,48 @@ reg("C12", exc_ops=set(), nontrivial=nt_we, mc=[("core", 4, 5), ("we", 4, 5), ("
 reg("C13", exc_ops=set(), nontrivial=nt_we, hook="hierarchy", obs_fail=False, mc=[("core", 4, 5), ("we", 4, 5)],
     gen_mc="we",
     weights={"CreateWe": 14, "AddPrefix": 10, "MovePrefix": 8, "AddRule": 8, "AddPage": 25, "RemovePrefix": 4},
-    profile={"raw": 0.0, "long": 0.1, "nlrus": 14, "extend": 0.25}, title="Hierarchy / pruning flag")
+    profile={"raw": 0.0, "long": 0.1, "nlrus": 14, "extend": 0.25, "firstwrite": 0.25}, title="Hierarchy / pruning flag")
+def torn_source(pid, cfg, tier, seed, work, first_id, hook=None):
+    """extra source of C14: the index states that only a crash reaches (every cut of real write logs, reopened by
+    the real code as in C18) are reachable states too; the rows are judged by CrashRows (clause C14.torn)."""
+    import crash
+    ti = 0 if tier == "quick" else 1
+    nh, steps = ((10, 8), (50, 10))[ti]
+    prof = dict(BASE_PROFILE)
+    prof.update({"nlrus": 8, "long": 0.8, "raw": 0.1, "lens": [75, 148, 149, 222, 222, 223, 296, 297],
+                 "weights": {"Reopen": 0, "Clear": 4, "Paginate": 0, "PagLinks": 0, "AddLinks": 20,
+                             "IndexBatchCrawl": 14, "AddRule": 8, "RemoveRule": 6, "CreateWe": 8}})
+    hists, rows, extra_h, next_id = [], [], [], [0]
+    for h in range(nh):
+        d = gen.Driver(seed * 1000003 + h * 15485863 + 211, prof, "file")
+        hist = crash.record_history(d, steps, file_events=True)
+        hist["ref_base"] = len(extra_h)
+        extra_h += hist["after"]
+        hists.append(hist)
+        n0 = len(rows)
+        rows += crash.enumerate_cuts(hist, h, next_id, files_every=10 ** 9, byte_cuts=False, ref_base=hist["ref_base"])
+        for r in rows[n0:]:
+            r["_h"] = h
+    out = []
+    for c in range(0, len(rows), 1200):
+        part = rows[c:c + 1200]
+        owner = dict((r["id"], r.pop("_h")) for r in part)
+        v = validate_crash_rows(part, extra_h, os.path.join(work, "torn_%d" % c))
+        for r in part:
+            bad = [x for _, x in v["verdicts"][r["id"]] if x.startswith(pid + ".")]
+            if bad and len(out) < 40:
+                h = hists[owner[r["id"]]]
+                out.append({"id": first_id + len(out), "backend": "file", "def": h["def"], "rules": h["rules"], "steps": [],
+                            "src": "torn-state", "ops": h["ops"], "rowfail": bad,
+                            "crash": {"kind": "crash", "cut": r["k"], "partial_bytes": 0, "missing_link_store": r["missing"],
+                                      "outcome": r["outcome"], "qfail": r["qfail"], "changed": r["changed"],
+                                      "writes": [[w[0], w[1], w[2], w[3]] for w in h["writes"]], "ram_at": h["ram_at"]}})
+    return out, {"torn_states_probed": len(rows), "torn_states_opened": sum(1 for r in rows if r["outcome"] == "opened"),
+                 "torn_states_failing": len(out)}
+
+
 reg("C14", exc_ops=set(), nontrivial=nt_pages, hook="readonly", obs_fail=False,
+    gen_mc="core", extra_sources=(tlcgen.tlc_traces, tlcgen.repo_test_traces, torn_source),
     weights={"Clear": 3, "CreateWe": 8, "AddLinks": 16, "Reopen": 10, "AddRule": 14},
     profile={"raw": 0.1, "long": 0.3, "nlrus": 10, "reopen_drop": 0.7}, n=(50, 400), steps=(10, 16),
     title="Queries never modify")
@@ -433,7 +473,7 @@ def finish(pid, cfg, tier, seed, t0, mcs, traces, gstats, val, viol, hits, drift
     for v in viol:
         tr = v["trace"]
         path = save_replay(pid, tr, [list(c) for c in v["clauses"]],
-                           extra={"kind": "token", "row": tr["row"]} if tr.get("row") else None)
+                           extra=({"kind": "token", "row": tr["row"]} if tr.get("row") else tr.get("crash")))
         step, clause = v["clauses"][0][0], v["clauses"][0][1]
         op = tr["steps"][step - 1]["op"] if 0 < step <= len(tr["steps"]) else "?"
         print("VIOLATION property=%s replay=%s clause=%s step=%d op=%s backend=%s"
@@ -885,6 +925,11 @@ def replay_c18(body, work):
         res = crash.probe(folder, default, [tuple(x) for x in rules])
     finally:
         shutil.rmtree(folder, ignore_errors=True)
+    if body.get("property") == "C14":
+        print("replay C14 (torn state) cut=%d: outcome=%s bytes changed by the queries=%d" % (body["cut"], res["outcome"], res["changed"]))
+        if res["changed"]:
+            print("VIOLATION property=C14 replay=- clause=C14.torn")
+        return 1 if res["changed"] else 0
     bad = res["outcome"] not in ("refused", "opened") or (res["outcome"] == "opened" and res["qfail"])
     print("replay C18 cut=%d: outcome=%s qfail=%s" % (body["cut"], res["outcome"], res["qfail"]))
     if bad:
